@@ -184,10 +184,18 @@ var checkTouches = map[string][]string{
 	"C13": {"registry"}, "C15": {"registry"}, "C17": {"registry"}, "C18": {"paths"},
 }
 
-var snapUnitGroup = map[string]string{
-	"verifSnapAllLevels": "registry", "verifSnapLevelToString": "registry", "verifSnapStringToLevel": "registry", "verifSnapShortTagMap": "registry",
-	"verifSnapLevelColors": "registry", "verifSnapLevelIsEnabledAs": "registry", "verifSnapLevelUseErrorDevice": "registry",
-	"verifSnapKnownPathMap": "paths", "verifSnapKnownPathRegexpMap": "paths", "verifSnapCodeHosting": "paths", "verifSnapWidths": "widths",
+var snapUnitGroup = map[string]string{}
+
+func init() {
+	// statements of the generated snapshot that had to be left out, by the variable they cover
+	for v, g := range map[string]string{
+		"allLevels": "registry", "levelToString": "registry", "stringToLevel": "registry", "shortTagMap": "registry", "mLevelColors": "registry",
+		"mLevelIsEnabledAs": "registry", "mLevelUseErrorDevice": "registry", "mLevelToLogSlog": "registry", "mLogSlogLevelToLevel": "registry",
+		"knownPathMap": "paths", "knownPathRegexpMap": "paths", "codeHostingProvidersMap": "paths", "homeDir": "paths", "currDir": "paths",
+		"minimalMessageWidth": "widths", "levelOutputWidth": "widths",
+	} {
+		snapUnitGroup["generated:verifGenSnapshot:"+v] = g
+	}
 }
 
 // degradedFor returns the stubbed export functions that were used and matter to the given check.
